@@ -426,6 +426,38 @@ design(
 """,
 )
 
+# ascending ranges next to descending ones of the same width (the other designs use descending vectors of width 4)
+design(
+    "vec_ascending",
+    """
+    def architecture(self):
+        up = Signal[BitVector[0:10]]("01100110011")
+
+        @std.sequential(std.Clock(self.clk))
+        def proc():
+            #@CTX
+            up[0] <<= self.a
+            up[10] <<= self.b
+            self.o <<= up[1] ^ up[0]
+            self.w <<= self.v
+""",
+)
+
+design(
+    "vec_descending",
+    """
+    def architecture(self):
+        dn = Signal[BitVector[10:0]]("01100110011")
+
+        @std.sequential(std.Clock(self.clk))
+        def proc():
+            dn[0] <<= self.a
+            dn[10] <<= self.b
+            self.o <<= dn[1] ^ dn[0]
+            self.w <<= self.v
+""",
+)
+
 # designs that are invalid only because of context: must be rejected in a fresh interpreter
 CONTEXT_INVALID = {}
 CONTEXT_INVALID["wait_duration_no_freq"] = (
